@@ -24,7 +24,7 @@ META = {
               '"not on the cycle" after reading its successor, and only then installs the new triangle; grow() appends a node that is not on the cycle',
         'R6': 'no fixed capacity: the cycle bookkeeping and the clip routine hold one entry per clipping plane / vertex in growable storage — no shift by a run-time index '
               '(a membership bit mask in a machine word aliases plane i with plane i - 64: a cell with more than 58 neighbours gets another polytope, or none) and no fixed-size '
-              'array indexed by a plane or vertex number',
+              'array indexed by a plane or vertex number, no plane / vertex index narrowed below 32 bits',
         'R5': 'the new vertices are a function of the cycle only: one vertex per consecutive pair (cur, next) of the closed walk (len + 1 items from start), built from '
               '(cur, next, index of the plane just pushed) — three planes per vertex — and appended after the removed vertices were truncated away',
     },
